@@ -144,6 +144,8 @@ pub struct Local {
     case_exec: u64,
     pub machinery_error: Option<String>,
     heartbeat: Option<Arc<Heartbeat>>,
+    /// property id (for keys recorded by the engine itself)
+    id: String,
     /// number of failed checks recorded by this worker (not capped, unlike `violations`)
     fail_count: u64,
     /// of those, the ones whose key is not an open known finding
@@ -168,6 +170,7 @@ thread_local! {
 
 /// Runs `f` (a call into the crate under test) catching unwinds. Panic messages are silenced.
 pub fn guarded<R>(f: impl FnOnce() -> R) -> Result<R, String> {
+    explore::reset_idle_budget();
     IN_SUBJECT.with(|c| c.set(true));
     let r = catch_unwind(AssertUnwindSafe(f));
     IN_SUBJECT.with(|c| c.set(false));
@@ -222,6 +225,7 @@ impl Local {
             case_exec: 0,
             machinery_error: None,
             heartbeat: None,
+            id: String::new(),
             fail_count: 0,
             unknown_fail_count: 0,
             known_keys: Arc::new(Vec::new()),
@@ -336,6 +340,20 @@ impl Local {
             let (rec, err) = explore::end();
             if let Some(e) = err {
                 self.machinery_error = Some(format!("{} (case {})", e, self.case_desc));
+                return;
+            }
+            if explore::was_runaway() {
+                // the execution was cut off by the pivot-draw budget: the routine does not terminate under
+                // this pivot sequence. The harness saw the call unwind; if its oracle did not count that as
+                // a failure, it is recorded here. The rest of this case's choice tree (which hangs below a
+                // path of 200000 points) is not explored.
+                self.stats.executions += 1;
+                self.stats.max_depth = self.stats.max_depth.max(rec.len() as u64);
+                if self.fail_count == fails_before {
+                    let key = format!("{}/non-termination", self.id);
+                    self.fail(&key, || explore::RUNAWAY.to_string());
+                }
+                *self.stats.counters.entry_ref("executions_cut_off_by_the_pivot_draw_budget") += 1;
                 return;
             }
             self.stats.executions += 1;
@@ -676,9 +694,12 @@ impl Report {
                 let replay = &replay;
                 let hb = beats[t].clone();
                 let name = name.to_string();
-                handles.push(scope.spawn(move || {
+                // large stacks: a selection that does not terminate under some pivot sequence recurses until
+                // the pivot-draw budget of the explorer stops it (explore.rs), not until the stack overflows
+                handles.push(std::thread::Builder::new().stack_size(1 << 30).spawn_scoped(scope, move || {
                     let mut lx = Local::new(&name);
                     lx.known_keys = known_keys;
+                    lx.id = id.to_string();
                     let mut reported_fails = 0u64;
                     lx.heartbeat = Some(hb.clone());
                     let mut samples: Vec<String> = Vec::new();
@@ -789,7 +810,7 @@ impl Report {
                     if let Some(e) = lx.machinery_error.take() {
                         g.3.push(e);
                     }
-                }));
+                }).expect("cannot spawn a worker thread"));
             }
             // watchdog
             if let Some(limit) = watchdog {
